@@ -1,8 +1,8 @@
-//! Observation F9 (C16, NOT repaired, outside every decided fragment): a vertex inserted AFTER a
-//! `.toroidal(..)` build is stored unwrapped.  Native witness - copy to `<repo>/tests/` and run
+//! F9 (C16, repaired by /repo commit d8c7375): a vertex inserted AFTER a `.toroidal(..)` build was
+//! stored unwrapped.  Native witness - copy to `<repo>/tests/` and run
 //! `cargo test --offline --test f9_toroidal_later_insert_not_wrapped -- --nocapture`.
-//! Observed on the pinned tree + fix commits (92fe197): `insert` returns Ok and the triangulation
-//! then holds the vertex [1.6, 0.4] in a domain of period [1, 1].
+//! Observed on the pinned tree + fix commits up to 92fe197: `insert` returned Ok and the
+//! triangulation then held the vertex [1.6, 0.4] in a domain of period [1, 1]; passes since d8c7375.
 use delaunay::core::builder::DelaunayTriangulationBuilder;
 use delaunay::prelude::triangulation::*;
 
